@@ -36,7 +36,7 @@ def init_form(unit, ctor, field):
 
 
 # methods confirmed (by reading) to be the same query in both siblings: their calls must agree argument by argument
-AGREE = ('isInWorkset', 'isImpliedByChildren', 'isNoninclusionImplied', 'IsImpliedByPreorder', 'processFoundNoninclusion',
+AGREE = ('expand', 'isInWorkset', 'isImpliedByChildren', 'isNoninclusionImplied', 'IsImpliedByPreorder', 'processFoundNoninclusion',
          'processFoundInclusion')
 
 
@@ -115,6 +115,17 @@ def run(unit, em):
                 ka = {(c_[0], c_[1]): c_[2] for c_ in sa}
                 kb = {(c_[0], c_[1]): c_[2] for c_ in sb}
                 diff = [(k_, ka[k_], kb[k_]) for k_ in ka if k_ in kb and ka[k_] != kb[k_]]
+                # own-object calls of methods that BOTH classes have: made by one sibling, they are made by the other too
+                both_have = {m['n'] for m in ra.get('methods', [])} & {m['n'] for m in rb.get('methods', [])}
+                oa = {c_[0] for c_ in sa if c_[1] in ('CXXThisExpr', 'this') or c_[1].startswith('this') or c_[1] == '?'} & both_have
+                ob = {c_[0] for c_ in sb if c_[1] in ('CXXThisExpr', 'this') or c_[1].startswith('this') or c_[1] == '?'} & both_have
+                only = [(m_, a.split('::')[-1], b.split('::')[-1]) for m_ in sorted(oa - ob)] + [(m_, b.split('::')[-1], a.split('::')[-1]) for m_ in sorted(ob - oa)]
+                only = [o_ for o_ in only if o_[0].startswith(('processFound', 'isImplied', 'isIn', 'isNon', 'IsImplied'))]
+                if only and not diff:
+                    m_, has, lacks = only[0]
+                    em.violation(mb[0] if lacks == b.split('::')[-1] else ma[0], 'method %s' % mname, '%s::%s calls its own %s(), %s::%s does not although it has that method too: the two implementations of one step record/consult different things (e.g. a result proved under a work-set hypothesis goes to the global cache instead of the per-level one)' % (
+                        has, mname, m_, lacks, mname), 'calls')
+                    continue
                 if diff:
                     k_, x, y = diff[0]
                     em.violation(ma[0], 'method %s' % mname, 'the sibling functors disagree on the arguments of %s on %s: %s passes (%s), %s passes (%s)' % (
